@@ -30,7 +30,7 @@ EVIDENCE_DIR = os.path.join(VERIF, "evidence")
 KNOWN_FILE = os.path.join(VERIF, "known_findings.json")
 
 
-class StopRun(Exception):
+class StopRun(BaseException):
     """Raised inside a run when an (unknown) violation ends it."""
 
 
